@@ -49,7 +49,9 @@ DoTargets   == (\E T \in (SUBSET Node) \ {{}} : UpdateTargets(T)) /\ UNCHANGED l
 DoSave      == Len(slots) < MaxSlots /\ Save
 DoSaveU     == DoSave /\ UNCHANGED last
 DoRestore   == (\E s \in 1..Len(slots) : Restore(s)) /\ UNCHANGED last
-Next == DoAssign \/ DoSetAuto \/ DoUpdateAll \/ DoTargets \/ DoSaveU \/ DoRestore
+\* pop, assignment outside any model, rebuild (poison-free values only: a build whose node function raises fails)
+DoRebuild   == (\E n \in Node, x \in Atoms \ {"!"} : Rebuild(n, x, ord)) /\ UNCHANGED last
+Next == DoAssign \/ DoSetAuto \/ DoUpdateAll \/ DoTargets \/ DoSaveU \/ DoRestore \/ DoRebuild
 \* same next-state relation with the arguments visible in TLC's simulation traces
 \* `last` names the action and its arguments (history variable, constant in the exhaustive spec)
 NextArgs ==
@@ -59,12 +61,14 @@ NextArgs ==
         \/ \E T \in (SUBSET Node) \ {{}} : UpdateTargets(T) /\ last' = <<"update_targets", T>>
         \/ DoSave /\ last' = <<"save">>
         \/ \E s \in 1..Len(slots) : Restore(s) /\ last' = <<"restore", s>>
+        \/ \E n \in Node, x \in Atoms \ {"!"} : Rebuild(n, x, ord) /\ last' = <<"rebuild", n, x>>
 
 \* post-conditions of the update actions as action properties
 FullUpdateCleanA == [][UpdateAll => FullUpdateClean']_<<gvars, svars, last>>
 TargetsCleanA == [][\A T \in (SUBSET Node) \ {{}} : UpdateTargets(T) => TargetsCleanFor(T)']_<<gvars, svars, last>>
 \* a caching node is evaluated only if it was dirty before the operation
-EvalOnlyIfDirtyA == [][\A n \in evald' : dirty[n] \/ (\E m \in Node, x \in Atoms : Assign(m, x) /\ n \in Desc(m))]_<<gvars, svars, last>>
+EvalOnlyIfDirtyA == [][(\E m \in Node, x \in Atoms : Rebuild(m, x, ord)) \/
+                       \A n \in evald' : dirty[n] \/ (\E m \in Node, x \in Atoms : Assign(m, x) /\ n \in Desc(m))]_<<gvars, svars, last>>
 Spec == Init /\ [][Next]_<<gvars, svars, last>>
 SpecArgs == Init /\ [][NextArgs]_<<gvars, svars, last>>
 =============================================================================
